@@ -11,7 +11,7 @@ GLOBAL_ASSUMPTIONS = [
 
 PROPERTIES = {
     "C01": {
-        "units": ["draw_to_term", "bar_draw", "pins_bar"],
+        "units": ["draw_to_term", "bar_draw", "pins_bar", "format_state"],
         "level": "proof",
         "explanation": "draw_to_term verified against the ghost terminal: after a completed draw every cell from the top of the previous frame on shows exactly the lines handed in (text lines, then bars, each wrapped at the terminal width) or is blank, nothing above is touched, the cursor rests in the pending-wrap column of the last row (so later output starts on a fresh line), a cleared frame leaves nothing; BarState::{draw, println, finish_using_style, update_estimate_and_draw, tick, drop} verified to hand draw_to_term exactly [printed texts ++ current rendering] (or nothing once cleared) and to leave terminal, row count and draw state untouched when a draw is skipped.",
         "level_text": "Deductive proof (Verus) for all line lists, widths, heights, previous frames and bar states; the history-level statement follows by induction from the per-call contracts (each call re-establishes the layout precondition of the next).",
@@ -19,7 +19,7 @@ PROPERTIES = {
         "assumptions": ["R2 sequential; R10 one model terminal"],
     },
     "C02": {
-        "units": ["multi_state", "draw_to_term", "pins_multi"],
+        "units": ["multi_state", "draw_to_term", "pins_multi", "bar_draw", "format_state"],
         "level": "proof",
         "explanation": "MultiState::{insert, remove_idx, len} verified against the documented list operations (End / Index / IndexFromBack / Before / After; removal keeps the order of the others and touches no other member) under the slot invariant (ordering and free_set duplicate-free, disjoint, covering all slots; the runtime consistency assertion is proved never to fire); MultiState::draw verified to hand draw_to_term exactly [printed lines ++ pending member texts ++ every member's stored rendering once, in visual order] and to reap exactly the maximal prefix of dropped bars after painting them once more; draw_to_term's content clause puts that frame directly below the untouched rows above. For both alignments draw_to_term is proved to paint [text lines ++ padding rows ++ bar lines] (Bottom alignment keeps the rows the bars no longer use as blank rows BETWEEN text and bars), to account rows of painted bars + padding, and to leave the region that the next draw clears starting right below the last text line (clauses C02-C03-content-with-padding, C19-C02-rows-accounted-with-padding, C03-C02-text-stays-above-the-region; fix db0c506). MultiState::draw's own clauses remain stated for Top alignment; Bottom alignment histories are covered by the bounded routine multi_bottom.",
         "level_text": "Deductive proof (Verus) for every history of insert/remove (the contracts are per operation over the whole order view, with frames) and every member count; loops by inductive invariants.",
@@ -145,7 +145,7 @@ PROPERTIES = {
         "assumptions": ["cell widths 1..2 and 2..5 progress characters in the Kani fixture", "IEEE-754 semantics as implemented by CBMC"],
     },
     "C19": {
-        "units": ["draw_to_term", "multi_state"],
+        "units": ["draw_to_term", "multi_state", "format_state"],
         "kani_thorough": [
             {"harness": "c19_wrapped_height_bounded", "timeout": 900, "complete": False, "bound": "cols <= 4096, 1 <= width <= 256",
              "obligation": "kani/draw_target::LineType::wrapped_height",
